@@ -53,10 +53,19 @@ func runC13(c *fw.Ctx) {
 	w.NestedPct = 0 // no authz grants exist in these histories, so every MsgExec probe is unauthorised
 	w.Ent, w.Reg, w.Stream = 35, 30, 20
 	points := r.Range(2, 3)
+	// a third of the histories move to a fresh chain initialised from an export before a probe point
+	reimportAt := -1
+	if r.Chance(33) {
+		reimportAt = r.Intn(points)
+		w.Bank, w.Staking = 0, 0
+	}
 	for p := 0; p < points && e.Halted == ""; p++ {
 		RunMixed(e, g, w, r.Range(8, 14))
 		if e.Halted != "" {
 			break
+		}
+		if p == reimportAt {
+			e.Reimport()
 		}
 		if p > 0 || r.Bool() { // rotate the enterprise signer set: removed signers must lose their rights
 			ep := e.Last.EntParams
